@@ -11,12 +11,14 @@ import (
 
 // Roots computes the set of origins in the backward value slice of v: where the value ultimately comes from.
 // Origins are rendered as strings:
-//   "const"                      any constant
-//   "p<i>" / "p<i>.<path>"       parameter i of the function v lives in (with the field path loaded from it)
-//   "global:<pkg>.<name>"        package-level variable
-//   "call:<callee>"              result of a call that is neither pure-string-building nor an inlinable repository function
-//   "fresh"                      fresh allocation
-//   "other:<what>"               anything not understood
+//
+//	"const"                      any constant
+//	"p<i>" / "p<i>.<path>"       parameter i of the function v lives in (with the field path loaded from it)
+//	"global:<pkg>.<name>"        package-level variable
+//	"call:<callee>"              result of a call that is neither pure-string-building nor an inlinable repository function
+//	"fresh"                      fresh allocation
+//	"other:<what>"               anything not understood
+//
 // Pure builders (string concatenation, path.Join, fmt.Sprintf, strings.*, conversions) pass their operands through.
 // Static repository callees are inlined (their returned values' roots, with parameters substituted by the arguments' roots).
 type rootSet map[string]bool
